@@ -12,7 +12,7 @@ LEVEL_TEXT = (
     'reordering in between, and the yielded key being that group\'s own element; (b) each group container slices labels and data with '
     'the same selection on the grouped axis and keeps the other axis whole (TypeBlocks.group yields the selection it extracted with); '
     '(c) the sort-and-slice fast path sorts with the default stable kind, slices blocks and labels with the same slice, labels each run '
-    'by its first value and emits the final run; the default sort kind is stable (C12); (d) in axis_window_items both bounds of the window slice are floored (no wrap-around), the anchor label is labels.iloc[right bound + label_shift] read from the iterated axis with negative positions rejected, each window is extracted with that slice on that same axis (per path, on the symbolic store), and the left bound advances by step on every path. Option forwarding: in every group / window iterator each call to a resolved callee that accepts a parameter named like one of the function\'s own parameters passes it on (confirmed exceptions listed in sfa/rules/forwardrules.py). Sibling defaults: a parameter taken by the same-named method of several container classes has the same default in each (confirmed exceptions listed in sfa/rules/forwardrules.py). Not decided: which windows exist (count / validity arithmetic); agreement of '
+    'by its first value and emits the final run; the default sort kind is stable (C12); (d) in axis_window_items both bounds of the window slice are floored (no wrap-around), the anchor label is labels.iloc[right bound + label_shift] read from the iterated axis with negative positions rejected, each window is extracted with that slice on that same axis (per path, on the symbolic store), and the left bound advances by step on every path. Option forwarding: in every group / window iterator each call to a resolved callee that accepts a parameter named like one of the function\'s own parameters passes it on (confirmed exceptions listed in sfa/rules/forwardrules.py). Sibling defaults: a parameter taken by the same-named method of several container classes has the same default in each (confirmed exceptions listed in sfa/rules/forwardrules.py). Group-key fallback: the string fallback of array_to_groups_and_locations uniques an elementwise image of the same array along the same axis (no row is reduced to one joined string). Not decided: which windows exist (count / validity arithmetic); agreement of '
     'the two group implementations on values; NaN keys.')
 
 CLAIM = dict(
@@ -30,3 +30,4 @@ def run(ctx: Ctx) -> None:
     windowrules.window_rules(ctx)
     forwardrules.forwarding(ctx, modules=None, prefixes=('iter_', '_axis_group', '_axis_window', 'axis_window', '_iter'), suffix='iter', floor=70, what='group / window iterator')
     forwardrules.sibling_defaults(ctx, prefixes=('iter_', '_axis_group', '_axis_window', 'axis_window', '_iter'), suffix='iter', floor=17)
+    grouprules.group_key_fallback(ctx)
